@@ -48,10 +48,15 @@ theorem descrWfB_sound {d : List Nat} (h : descrWfB d = true) : DescrWf d := by
   have := List.all_eq_true.mp h.2 c hc
   simpa using this
 
+theorem powerReadingWfB_sound {p : PowerReading} (h : powerReadingWfB p = true) : p.Wf := by
+  simp [powerReadingWfB] at h
+  obtain ⟨⟨⟨⟨⟨a, b⟩, c⟩, d⟩, e⟩, f⟩ := h
+  exact ⟨a, b, c, d, e, f⟩
+
 theorem wfB_sound {s : BmcState} (h : wfB s = true) : s.Wf := by
   simp only [wfB, Bool.and_eq_true, decide_eq_true_eq] at h
-  obtain ⟨⟨⟨⟨⟨⟨⟨⟨⟨⟨⟨⟨⟨⟨⟨⟨⟨⟨⟨⟨⟨⟨⟨⟨⟨⟨⟨⟨⟨⟨⟨⟨⟨⟨⟨⟨⟨d1, d2⟩, d3⟩, d4⟩, d5⟩, d6⟩, d7⟩, d8⟩, d9⟩, g⟩, w1⟩, w2⟩, w3⟩, w4⟩, w5⟩, c1⟩, c2⟩, bf⟩,
-    lan⟩, lr⟩, un⟩, ue⟩, mu⟩, fn⟩, se⟩, ea⟩, el⟩, le⟩, po⟩, pw⟩, sc⟩, pc⟩, pg⟩, hc⟩, hs⟩, hr⟩, he⟩, hd⟩ := h
+  obtain ⟨⟨⟨⟨⟨⟨⟨⟨⟨⟨⟨⟨⟨⟨⟨⟨⟨⟨⟨⟨⟨⟨⟨⟨⟨⟨⟨⟨⟨⟨⟨⟨⟨⟨⟨⟨⟨⟨⟨⟨⟨d1, d2⟩, d3⟩, d4⟩, d5⟩, d6⟩, d7⟩, d8⟩, d9⟩, g⟩, w1⟩, w2⟩, w3⟩, w4⟩, w5⟩, c1⟩, c2⟩, bf⟩,
+    lan⟩, lr⟩, un⟩, ue⟩, mu⟩, fn⟩, se⟩, ea⟩, el⟩, le⟩, po⟩, pw⟩, sc⟩, pc⟩, pg⟩, hc⟩, hs⟩, hr⟩, he⟩, hd⟩, dM⟩, dm⟩, dp⟩, ds⟩ := h
   refine
     { device := ⟨d1, d2, d3, d4, d5, d6, d7, d8, ?_⟩, guid := g, watchdog := ⟨w1, w2, w3, w4, w5⟩, chassis := ⟨c1, c2⟩,
       bootFlags := allB_sound bf ?_, lan := allB_sound lan fun _ _ => lanWfB_sound,
@@ -63,7 +68,9 @@ theorem wfB_sound {s : BmcState} (h : wfB s = true) : s.Wf := by
       power := allB_sound pw (by intro _ _ hh; simpa using hh), sigClass := allB_sound sc (by intro _ _ hh; simpa using hh),
       powerChannels := allB_sound pc (by intro _ _ hh; simpa using hh), pmGlobal := pg, hpmComponents := hc,
       hpmSelftest2 := hs, hpmRollback := hr, hpmRollbackEstimate := ?_,
-      hpmDescr := allB_sound hd fun _ _ => descrWfB_sound }
+      hpmDescr := allB_sound hd fun _ _ => descrWfB_sound,
+      dcmiMajor := dM, dcmiMinor := dm, dcmiPower := allB_sound dp fun _ _ => powerReadingWfB_sound,
+      dcmiSensors := allB_sound ds (by intro _ l hh v hv; simpa using List.all_eq_true.mp hh v hv) }
   · intro a ha; rw [ha] at d9; simpa using d9
   · intro k v hh hk
     simp only [Bool.or_eq_true, bne_iff_ne, decide_eq_true_eq] at hh
